@@ -29,6 +29,7 @@ import (
 	"encoding/json"
 	"fmt"
 	"io"
+	"os"
 	"sort"
 	"strings"
 	"testing"
@@ -110,6 +111,7 @@ type c16Env struct {
 	seenCanon map[[32]byte]bool
 	histCanon map[[32]byte][32]byte
 	rndCtr    uint64
+	idCtr     uint64
 	rndBuf    []byte
 	stats     map[string]int64
 }
@@ -199,6 +201,14 @@ func c16NewEnv(t *testing.T, r *ev.Run) *c16Env {
 
 func (e *c16Env) now() int64 { return vtime.Now().Unix() }
 
+// newID gives ids of harness-made credentials and presentations. They come from a counter that is never reset:
+// the per-replay random stream (uuid.SetRand) restarts with every replay, and ids drawn from it would collide with
+// the ids of cached credentials / presentations minted at the same stream position of an earlier replay.
+func (e *c16Env) newID() string {
+	e.idCtr++
+	return fmt.Sprintf("%08x-c160-4000-8000-%012x", uint32(e.r.Seed()), e.idCtr)
+}
+
 func c16Wipe(t *testing.T, db *gorm.DB) {
 	for _, tbl := range []string{"discovery_credential", "discovery_presentation", "discovery_presentation_refresh",
 		"discovery_presentation_error", "discovery_service", "credential_prop", "credential"} {
@@ -250,7 +260,7 @@ func (e *c16Env) cred(o c16CredOpt) string {
 		signKey = e.mallory.key
 	}
 	claims := map[string]any{
-		"iss": e.authority.did, "sub": o.Subject.did, "jti": e.authority.did + "#" + uuid.NewString(),
+		"iss": e.authority.did, "sub": o.Subject.did, "jti": e.authority.did + "#" + e.newID(),
 		"nbf": e.base.Unix() - 3600, "exp": o.ExpAbs,
 		"vc": map[string]any{
 			"@context":          []string{"https://www.w3.org/2018/credentials/v1"},
@@ -291,7 +301,7 @@ func (e *c16Env) buildVP(o c16VPOpt) *c16VP {
 	now := e.now()
 	id := o.ID
 	if id == "" && !o.NoID {
-		id = o.Signer.did + "#" + uuid.NewString()
+		id = o.Signer.did + "#" + e.newID()
 	}
 	types := append([]string{"VerifiablePresentation"}, o.Types...)
 	var raw string
@@ -555,6 +565,10 @@ type c16Config struct {
 	Defects  bool
 	InjectS  int // number of subjects for which inject is enabled
 	Split    int // depth of the shared BFS prefix (frontier sharding)
+	// LeafLight: in states at the deepest level only the defects whose handling reads the list (retractions, duplicate
+	// ids — everything built from the state or tried per subject) plus three representatives are offered; the full
+	// alphabet is offered in every shallower state. Quick tier only.
+	LeafLight bool
 }
 
 type c16Entry struct {
@@ -1260,7 +1274,7 @@ func c16Defects() []c16Defect {
 		{Label: "retraction for unknown jti", PerS: true, Build: func(w *c16World, s int) *c16VP {
 			p := w.e.subjects[s]
 			return w.e.buildVP(c16VPOpt{Signer: p, ExpIn: c16Long, Types: []string{c16RetractType},
-				Extra: map[string]any{"retract_jti": p.did + "#" + uuid.NewString()}})
+				Extra: map[string]any{"retract_jti": p.did + "#" + w.e.newID()}})
 		}},
 		{Label: "retraction without retract_jti", Build: func(w *c16World, s int) *c16VP {
 			return w.e.buildVP(c16VPOpt{Signer: w.e.subjects[s], ExpIn: c16Long, Types: []string{c16RetractType}})
@@ -1317,7 +1331,11 @@ func c16Defects() []c16Defect {
 // one must leave the state unchanged, so they are self-loop transitions of this state.
 func (w *c16World) offerDefects() int {
 	n := 0
+	light := w.cfg.LeafLight && len(w.hist) >= w.cfg.Depth
 	for _, d := range w.e.defects {
+		if light && !d.State && !d.PerS && d.Label != "wrong audience" && d.Label != "bad presentation signature" && d.Label != "surplus credential" {
+			continue
+		}
 		subjects := []int{0}
 		if d.PerS {
 			subjects = subjects[:0]
@@ -1398,7 +1416,7 @@ func (w *c16World) judge() (selfLoops int) {
 
 func c16Configs(thorough bool) []c16Config {
 	if !thorough {
-		return []c16Config{{Name: "full-k2", K: 2, Depth: 4, Split: 2, Short: true, Inject: true, InjectS: 2, Replay: true, Defects: true}}
+		return []c16Config{{Name: "full-k2", K: 2, Depth: 4, Split: 2, Short: true, Inject: true, InjectS: 2, Replay: true, Defects: true, LeafLight: true}}
 	}
 	return []c16Config{
 		{Name: "full-k2", K: 2, Depth: 5, Split: 3, Short: true, Inject: true, InjectS: 2, Replay: true, Defects: true},
@@ -1414,7 +1432,8 @@ func TestVerifC16BFS(t *testing.T) {
 	r.Rule("explicit-state BFS over event histories {register(s,7h), register(s,1h), retract(s), third-party replay(s), " +
 		"malicious-server inject(s), expire(+2h), poll, server reset, reset+register×k} on a real server Module and a real client " +
 		"Module (two SQLite databases, real verifier, virtual clock); a state = canonical form of both databases + replay candidates; " +
-		"in every new state the defective-registration alphabet (25 kinds) is offered to the server (self-loop transitions), the " +
+		"in every new state the defective-registration alphabet (25 kinds; quick tier: at the deepest level only the 9 kinds whose handling " +
+		"reads the list or that are tried per subject, plus 3 representatives) is offered to the server (self-loop transitions), the " +
 		"client's Search is judged, and a fair suffix of polls must end with Search == server live set. The BFS prefix to the split depth " +
 		"is shared; below it the frontier is dealt over the workers, whose seen-sets are private (state counts are per worker).")
 	r.Assume("go-did parsing, jwx, gorm/SQLite are trusted; did:jwk/did:key resolution is exercised, not modelled")
@@ -1424,6 +1443,9 @@ func TestVerifC16BFS(t *testing.T) {
 	var rc struct {
 		Config string     `json:"config"`
 		Hist   []c16Event `json:"hist"`
+	}
+	if os.Getenv("VERIF_REPLAY") != "" && !r.ReplayCase(&rc) {
+		return // the replay file belongs to another part
 	}
 	if r.ReplayCase(&rc) {
 		for _, cfg := range c16Configs(true) {
@@ -1457,18 +1479,22 @@ func TestVerifC16BFS(t *testing.T) {
 			t.Fatal("vacuity guard: an honest retraction is refused")
 		}
 		w.poll()
-		if got := w.searchRaws(); len(got) != 0 {
-			t.Fatal("vacuity guard: retraction does not reach the client")
+		for _, raw := range w.searchRaws() {
+			if !e.facts(raw).Retraction { // (a retraction in Search is an observation of the BFS oracle, not a harness error)
+				t.Fatal("vacuity guard: retraction does not reach the client")
+			}
 		}
 		w.apply(c16Event{Op: "regshort", S: 1})
 		w.poll()
-		if got := w.searchRaws(); len(got) != 1 {
+		if got := w.searchRaws(); len(got) < 1 {
 			t.Fatal("vacuity guard: second registration not found")
 		}
+		before := e.now()
 		w.apply(c16Event{Op: "expire"})
-		if got := w.searchRaws(); len(got) != 0 {
-			t.Fatal("vacuity guard: expired registration still found (virtual clock not effective?)")
+		if e.now()-before != int64(c16Advance/time.Second) {
+			t.Fatal("vacuity guard: the virtual clock does not advance")
 		}
+		w.checkClientSearch("guard: after expiry of the only entry") // an expired entry in Search is a VIOLATION, not a harness error
 	}
 
 	for _, cfg := range c16Configs(r.Thorough()) {
@@ -1650,6 +1676,9 @@ func TestVerifC16Sched(t *testing.T) {
 		Schedule []int  `json:"schedule"`
 	}
 	replay := r.ReplayCase(&rc)
+	if os.Getenv("VERIF_REPLAY") != "" && !replay {
+		return // the replay file belongs to another part
+	}
 	cfg := c16Config{Name: "sched", K: 3}
 	var steps int64
 	for si, sc := range scenarios {
@@ -1736,6 +1765,8 @@ func TestVerifC16Sched(t *testing.T) {
 			opts.Bound = 2
 			if r.Thorough() {
 				opts.Bound = 3
+			} else if len(sc.Threads) > 2 {
+				opts.Bound = 1
 			}
 			r.Bound("preemption_bound_"+sc.Name, opts.Bound)
 		} else {
